@@ -16,6 +16,9 @@ import (
 
 func runC13(c *CaseCtx) (res CaseResult) {
 	r := caseRand(c.Seed, "C13", c.Idx)
+	if c.Idx%50 == 13 {
+		return runTwinInterfaces(c, r, true)
+	}
 	if c.Idx%10 == 7 {
 		// history on one Func with a subtyped default: the error of the call
 		// that lacks the critical value lists that call's own inputs only
